@@ -1,7 +1,7 @@
 HARNESSES = {
     'EncoderReset': dict(split={'mode': 3, 'call': 25}, quick=dict(params={'K': 1}), thorough=dict(params={'K': 2})),
     'BytesTwice': dict(split={'mode': 3}),
-    'RendererReset': dict(),
+    'RendererReset': dict(split={'stale': 3, 'nstops': 2}),
 }
 
 BOUNDS = {
